@@ -384,3 +384,148 @@ pub fn cross_group_rollback(rep: &mut Report, backend: Bk) {
         }
     }
 }
+
+/// C08, routing between two groups: group 1 rotates its Nostr group id away from X, group 2 then takes X. Every
+/// interleaving of the two groups' event sequences (each in its own causal order), followed by every event once
+/// more, delivered to a member of both: after every step both stored records mirror their MLS state, every event
+/// takes effect in its own group only, and at the end both groups are complete.
+pub fn two_group_routing(rep: &mut Report, backend: Bk) {
+    let sc = base("c08-two-groups", &["A", "B", "Z"], &["A", "B"], &[], vec![act("B", ActKind::Msg("g1-before-rotation".into()), 5), act("A", ActKind::RotateId(0xB7), 10).then(vec![act("B", ActKind::Msg("g1-after-rotation".into()), 5)])]);
+    let w = match build_world(&sc, backend) {
+        Ok(w) => w,
+        Err(e) => {
+            rep.machinery_errors.push(format!("c08 two-groups world: {}", e.0));
+            return;
+        }
+    };
+    let idx = |s: &str| w.pool.iter().position(|p| p.label.contains(s)).unwrap();
+    let g1_seq: Vec<Event> = vec![w.pool[idx("n.B.msg0")].event.clone(), w.pool[idx("A.rotate1")].event.clone(), w.pool[idx("n1.B.msg0")].event.clone()];
+    let b = &w.initial["B"];
+    let z0 = &w.initial["Z"];
+    let x_old: [u8; 32] = match nostr_group_id_of(z0, &w.gid) {
+        Some(x) => x,
+        None => return,
+    };
+    // group 2: B and Z
+    let kp = z0.key_package_event();
+    let cfgd = NostrGroupConfigData::new("g2".into(), "second".into(), None, None, None, vec![relay("wss://g2.example")], vec![b.pk()]);
+    let Ok(g2) = with_mdk!(b, m => m.create_group(&b.pk(), vec![kp], cfgd)) else {
+        rep.machinery_errors.push("c08 two-groups: create_group".into());
+        return;
+    };
+    let g2id = g2.group.mls_group_id.clone();
+    let _ = with_mdk!(b, m => m.merge_pending_commit(&g2id));
+    let wid = EventId::from_slice(&sha2_32(b"c08-two-groups-welcome")).unwrap();
+    let Ok(wl) = with_mdk!(z0, m => m.process_welcome(&wid, &g2.welcome_rumors[0])) else { return };
+    let _ = with_mdk!(z0, m => m.accept_welcome(&wl));
+    // group 2 takes the id group 1 gives up, then goes on under it
+    let f1 = match with_mdk!(b, m => m.update_group_data(&g2id, mdk_core::groups::NostrGroupDataUpdate::new().nostr_group_id(x_old))) {
+        Ok(r) => r.evolution_event,
+        Err(e) => {
+            // B still holds group 1 under X at this point of ITS history: it must follow the rotation first
+            let _ = e;
+            for e in &g1_seq {
+                let _ = b.process(e);
+            }
+            match with_mdk!(b, m => m.update_group_data(&g2id, mdk_core::groups::NostrGroupDataUpdate::new().nostr_group_id(x_old))) {
+                Ok(r) => r.evolution_event,
+                Err(e) => {
+                    rep.machinery_errors.push(format!("c08 two-groups: group 2 cannot take the released id: {e:?}"));
+                    return;
+                }
+            }
+        }
+    };
+    let _ = with_mdk!(b, m => m.merge_pending_commit(&g2id));
+    let Ok(f2) = with_mdk!(b, m => m.create_message(&g2id, rumor(&b.keys, "g2-under-the-reused-id", now() - 10))) else { return };
+    let g2_seq: Vec<Event> = vec![f1, f2];
+    let labels1 = ["g1:message(old id)", "g1:rotation-commit(old id)", "g1:message(new id)"];
+    let labels2 = ["g2:takes-the-old-id-commit", "g2:message(reused id)"];
+    // all interleavings
+    fn inter(a: usize, b: usize, cur: &mut Vec<(u8, usize)>, out: &mut Vec<Vec<(u8, usize)>>, na: usize, nb: usize) {
+        if a == na && b == nb {
+            out.push(cur.clone());
+            return;
+        }
+        if a < na {
+            cur.push((1, a));
+            inter(a + 1, b, cur, out, na, nb);
+            cur.pop();
+        }
+        if b < nb {
+            cur.push((2, b));
+            inter(a, b + 1, cur, out, na, nb);
+            cur.pop();
+        }
+    }
+    let mut orders = Vec::new();
+    inter(0, 0, &mut Vec::new(), &mut orders, g1_seq.len(), g2_seq.len());
+    let g1h = hx(w.gid.as_slice());
+    let g2h = hx(g2id.as_slice());
+    for order in &orders {
+        let z = z0.fork();
+        let mut full: Vec<(u8, usize)> = order.clone();
+        // then every event once more, group 1's first
+        full.extend((0..g1_seq.len()).map(|i| (1u8, i)));
+        full.extend((0..g2_seq.len()).map(|i| (2u8, i)));
+        let mut trace: Vec<String> = Vec::new();
+        for (g, i) in &full {
+            let (ev, label) = if *g == 1 { (&g1_seq[*i], labels1[*i]) } else { (&g2_seq[*i], labels2[*i]) };
+            let before = all_messages(&z);
+            let res = std::panic::catch_unwind(std::panic::AssertUnwindSafe(|| z.process(ev)));
+            let rk = match &res {
+                Ok(x) => result_kind(x),
+                Err(_) => "PANIC".into(),
+            };
+            trace.push(format!("{label}->{rk}"));
+            rep.evaluations += 1;
+            let after = all_messages(&z);
+            let mut bad: Vec<String> = Vec::new();
+            if rk == "PANIC" {
+                bad.push("panic".into());
+            }
+            // an event changes messages of its own group only
+            for (k, m) in &after {
+                let other_group = if *g == 1 { &g2h } else { &g1h };
+                if &k.0 == other_group && before.get(k).map(|o| msg_fields(o) != msg_fields(m)).unwrap_or(true) {
+                    bad.push("event-took-effect-in-the-other-group".into());
+                }
+            }
+            for gid in [&w.gid, &g2id] {
+                if let Some(go) = z.group_obs(gid) {
+                    if let Some(mm) = crate::props_e1::record_mismatch(&go) {
+                        bad.push(format!("record-vs-mls:{mm}"));
+                    }
+                }
+            }
+            bad.sort();
+            bad.dedup();
+            for bd in bad {
+                // what first went wrong on this path: the first delivery after which the finding holds
+                let cause = trace.iter().find(|t| t.contains("->Unprocessable") || t.contains("->Err")).map(|t| t.as_str()).unwrap_or(label).to_string();
+                rep.finding(format!("C08|two-groups|{bd}|after={cause}|{backend:?}"), format!("member of both groups, deliveries [{}]: {bd}", trace.join(" ; ")), json!({"trace": trace, "backend": format!("{backend:?}")}));
+            }
+        }
+        // the end: both groups complete
+        let after = all_messages(&z);
+        let have = |g: &str, c: &str| after.iter().any(|(k, m)| k.0 == g && m.content == c && m.state.as_str() == "processed");
+        let mut missing = Vec::new();
+        for c in ["g1-before-rotation", "g1-after-rotation"] {
+            if !have(&g1h, c) {
+                missing.push(format!("g1:{c}"));
+            }
+        }
+        if !have(&g2h, "g2-under-the-reused-id") {
+            missing.push("g2:g2-under-the-reused-id".into());
+        }
+        rep.case(&format!("two-groups|{backend:?}|{}|missing={}", trace.join("+"), missing.len()));
+        rep.states += 1;
+        if !missing.is_empty() {
+            rep.finding(
+                format!("C08|two-groups|messages-not-routed-to-their-group|{}|{backend:?}", missing.join("+")),
+                format!("member of both groups, deliveries [{}]: at the end {missing:?} are not stored as processed in their group", trace.join(" ; ")),
+                json!({"trace": trace, "backend": format!("{backend:?}")}),
+            );
+        }
+    }
+}
